@@ -323,3 +323,33 @@ Fixpoint spec_merge_msg (d : nat) (sc : schema) (i : nat) (x : val) (bs : list b
 
 Definition spec_decode_msg (sc : schema) (i : nat) (bs : list byte) : option val :=
   spec_merge_msg depth_fuel sc i (default_msg depth_fuel sc i) bs.
+
+(* ---------------------------------------------------------------- defaults, from the guide *)
+(* "If a field is absent the parser uses the default value: numeric types 0, bool false, string and bytes empty, enums the
+   first defined value (which must be 0), message fields not set (the generated struct holds the message with all its fields
+   at their defaults for a bare field), repeated fields and maps empty."  Written here on their own -- the reference decoder
+   above and Conform.v take the model's defaults; C06_defaults_spec shows they are these. *)
+Definition spec_default_scalar (p : proto_type) : val :=
+  match p with
+  | TYPE_STRING | TYPE_BYTES => VB []
+  | _ => VI 0
+  end.
+
+Definition spec_default_field (dm : nat -> val) (f : field) : val :=
+  match f with
+  | FSingular _ (TScalar p) => spec_default_scalar p
+  | FSingular _ (TMsg j) => dm j
+  | FOptional _ _ => VL NNone []
+  | FRepeated _ _ => VL NRep []
+  | FMap _ _ _ => VL NMap []
+  | FOneof _ => VL NNone []
+  end.
+
+Fixpoint spec_default_msg (d : nat) (sc : schema) (i : nat) : val :=
+  match d with
+  | O => VL NMsg []
+  | S d' => match nth_error sc i with
+            | Some fs => VL NMsg (map (spec_default_field (spec_default_msg d' sc)) fs)
+            | None => VL NMsg []
+            end
+  end.
